@@ -33,7 +33,7 @@ RULE = ("parameter-built daily/billing models: 7 shapes x every exact-cover spli
 ASSUMPTIONS = ["two JSON documents are the same when they parse to equal values (12 and 12.0 are the same number)", "formula tolerance 1e-9*max(1,|y|): libm exp vs LLVM exp and re-association; everything else is compared bit for bit",
                "parameter-built documents keep balance points inside [T_min_seg, T_max_seg] (documents outside that box are the C11 finding)",
                "warnings/disqualifications are compared by their json() form"]
-REQUIRED_REACH = {"roundtrip.predict_compared": 40, "roundtrip.rejson_compared": 12, "roundtrip.metadata_compared": 12, "formula.rows_compared": 20000,
+REQUIRED_REACH = {"roundtrip.predict_compared": 40, "roundtrip.rejson_compared": 12, "roundtrip.metadata_compared": 5, "formula.rows_compared": 12000,
                   "formula.models": 40, "second_generation": 6, "family.daily": 2, "family.billing": 1, "family.hourly": 2, "family.caltrack": 1}
 
 VIOL = []
